@@ -181,7 +181,7 @@ func judgeC12(c ReqCase) *Fail {
 		return failf("params-reconstruct", "cannot reconstruct the weight of every final criterion %v from request and reports", snap.critIds())
 	}
 	mg := newMargin()
-	levels, generated, endless := refLevels(v.MP, true, snap, mg)
+	levels, generated, endless := refLevelsR(v.MP, true, snap, mg, r)
 	if endless {
 		return failf("series-ends", "the generated series does not end within %d levels", seriesCap)
 	}
@@ -300,11 +300,10 @@ func genHeuristicReq(t *rapid.T, o GenOpts) GenReq {
 			adds = adds || str(asM(asM(bm["props"])["applier"])["function"]) == "newCriterion"
 		}
 	}
-	if !adds {
-		return gr
+	if adds {
+		gr.Labels = append(gr.Labels, "thresholdsWithAddedCriterion")
 	}
-	o.Biases = []string{"criteriaOmission", "preferenceReversal", "fatigue"}
-	return genRequest(t, o)
+	return gr
 }
 
 // ---------------------------------------------------------------- C13
@@ -404,7 +403,7 @@ func judgeC13(c ReqCase) *Fail {
 		return failf("satisfaction-accepted", "valid satisfaction request rejected: %s", out.Err)
 	}
 	mg := newMargin()
-	levels, generated, endless := refLevels(v.MP, false, snap, mg)
+	levels, generated, endless := refLevelsR(v.MP, false, snap, mg, r)
 	if endless {
 		return failf("series-ends", "the generated series does not end within %d levels", seriesCap)
 	}
